@@ -296,9 +296,18 @@ def reaching_def(ctx, fn: FuncInfo, name: str, at: ast.AST) -> ast.expr | None:
     for c in cands[1:]:
         if g.dominates(last.id, c.id):
             last = c
-    between = g.nodes_between(last.id, use)
+    # another definition kills `last` only if it lies on a path last -> use that does not pass through `last` again
+    avoid = frozenset({last.id})
+    fwd = set()
+    todo = list(g.succ[last.id])
+    while todo:
+        x = todo.pop()
+        if x in fwd or x in avoid:
+            continue
+        fwd.add(x)
+        todo.extend(g.succ[x])
     for o in others + [c for c in cands if c is not last]:
-        if o.id in between and o.id != use:
+        if o.id != use and o.id in fwd and (g.reaches(o.id, use, avoiding=avoid) or use in g.succ[o.id]):
             return None
     return last.stmt.value
 
